@@ -172,6 +172,9 @@ type MsgSpec struct {
 	Forwarded string `json:"forwarded,omitempty"`
 	XFHeader  string `json:"xfHeader,omitempty"` // value for the configured custom header
 	XFWhich   int    `json:"xfWhich,omitempty"`  // with several configured header names: 0 all of them (first = the value, others a decoy), 1 only the first, 2 only the second
+	Proto     int    `json:"proto,omitempty"`    // HTTP version of the request: 0 HTTP/1.1, 1 HTTP/1.0, 2 HTTP/2
+	ReqIDHdr  string `json:"reqIDHdr,omitempty"` // X-Request-Id header a gateway put on the request (retries repeat it)
+	Head      bool   `json:"head,omitempty"`     // GET endpoints (metadata, certificate, healthz, ready) asked with HEAD
 	TLS       bool   `json:"tls,omitempty"`      // the request arrives over TLS at the provider itself (r.TLS set) rather than through a terminating proxy
 
 	Binding    string `json:"binding,omitempty"` // redirect | post | soap
